@@ -157,22 +157,32 @@ func VerifC17_OneOfNested() {
 }
 
 // the same for Validate on native values
+var verifZero int64
+
 func VerifC17_Validate() {
 	min := nondetInt64("min")
 	item := NewObjectSchema("I", map[string]*PropertySchema{
 		"a": NewPropertySchema(NewIntSchema(&min, nil, nil), nil, true, nil, nil, nil, nil, nil),
 		"m": NewPropertySchema(NewMapSchema(NewStringSchema(nil, nil, nil), NewIntSchema(&min, nil, nil), nil, nil), nil, false, nil, nil, nil, nil, nil),
+		"n": NewPropertySchema(NewMapSchema(NewIntSchema(&verifZero, nil, nil), NewIntSchema(&min, nil, nil), nil, nil), nil, false, nil, nil, nil, nil, nil),
 	})
 	l := NewListSchema(item, nil, nil)
 	a0, a1 := nondetInt64("a0"), nondetInt64("a1")
 	verifAssume(vAnd(a0 >= min, a1 >= min))
-	e0 := map[string]any{"a": a0, "m": map[string]int64{"k": a0}}
+	e0 := map[string]any{"a": a0, "m": map[string]int64{"k": a0}, "n": map[int64]int64{7: a0}}
 	e1 := map[string]any{"a": a1}
 	native := []map[string]any{e0, e1}
-	fault := nondetChoice("fault", 5)
+	fault := nondetChoice("fault", 7)
 	var want []string
 	bad := nondetInt64("bad")
 	switch fault {
+	case 5: // a value of the int-keyed map
+		verifAssume(bad < min)
+		e0["n"] = map[int64]int64{7: bad}
+		want = []string{"[0]", "n", "[7]"}
+	case 6: // a key of the int-keyed map
+		e0["n"] = map[int64]int64{-3: a0}
+		want = []string{"[0]", "n", "{-3}"}
 	case 1:
 		verifAssume(bad < min)
 		e1["a"] = bad
